@@ -106,6 +106,7 @@ def run(ck):
         R.check_slice_extent(ck, simp(read_path(it, env, dec, "value")), "data", Lin({}, 2), Lin({L: 1}, 2), fn, "value == data[2 : 2+L], L = octet 1")
         st, m = D.prove(env.facts, binop(">=", length(data), binop("+", L, C(2))))
         ck.verdict("G-REFUSE", fn, "a buffer shorter than length + 2 (every strict prefix) is refused", [] if st == "proved" else [f"{st}: {m}"], "len(data) >= L + 2 on return")
+        D.check_short_refusals_justified(ck, it, fn, "data", binop("+", L, C(2)), "length + 2 octets (a complete TLV, also one with an empty value, is accepted)")
         R.check_lin_equal(ck, simp(read_path(it, env, dec, "packet_len")), Lin({L: 1}, 2), fn, "decoded packet_len == L + 2")
         D.check_xbuf(ck, it, fn); D.check_xdecl(ck, it, fn, "data", binop("+", L, C(2)), extra_facts=env.facts); D.check_escape(ck, it, fn, allowed=allowed)
         D.check_independent(ck, it, env, dec, "data", fn)
@@ -117,6 +118,7 @@ def run(ck):
         L = T("idx", rb, C(0), ty="int")
         st, m = D.prove(env.facts, binop(">=", length(rb), binop("+", L, C(1))))
         ck.verdict("G-REFUSE", fn, "a buffer shorter than length + 1 is refused", [] if st == "proved" else [f"{st}: {m}"], "len >= L + 1 on return")
+        D.check_short_refusals_justified(ck, it, fn, "raw_bytes", binop("+", L, C(1)), "length + 1 octets (a complete LV is accepted)", exc_suffix=("BytesTooShortError", "ValueError"), only_func="CfdpLv.unpack")
         # value: gamma(L == 0, empty, slice)
         def obj_leaves(t):
             if t.k == "gamma":
